@@ -82,7 +82,7 @@ Proof. exact (query_state_exact x now S sts). Qed.
 (* F1 (DESIGN section 8). On the pinned code a merge that REPLACED a known id touched neither the version index nor the
    version counter: Query by id / by state still saw the new content (they read st — theorems above), but a QSince
    scan from the current version did not, which is what the Silencer cache (C02) relies on. Repaired in /repo by
-   ca83c00 (C02): a replacing merge now gives the id the next version and moves it to the tail of the version
+   5c143bd (C02): a replacing merge now gives the id the next version and moves it to the tail of the version
    index. The model follows the repaired code; the bookkeeping invariant is preserved (c09_merged_is_effective). *)
 Theorem c09_replace_reindexes x now ov S n e p :
   st S !! m_id e = Some p -> m_upd p < m_upd e -> now <= m_exp e ->
